@@ -125,6 +125,8 @@ func (w *world) do1(op, o string) (res bool, err error) {
 }
 
 func (w *world) proj() proj {
+	core.Beat("real:State")
+	defer core.Beat("harness")
 	p := proj{M: w.rw.State().String(), G: map[string]string{}, CanX: map[string]bool{}, CanS: map[string]bool{}}
 	for _, o := range owners {
 		p.G[o] = w.g[o].State().String()
